@@ -212,6 +212,15 @@ class Verdict:
             self.mismatches.append(m)
 
     def finish(self, tier, level, coverage, assumptions):
+        # keys "X:..." belong to behaviour the specification covers beyond the listed properties:
+        # a deviation there is reported (SPEC-DEVIATION, evidence) but is no violation of the property
+        extra = [m for m in self.mismatches if str(m.get("key")).startswith("X:")]
+        self.mismatches = [m for m in self.mismatches if not str(m.get("key")).startswith("X:")]
+        for k in sorted({m["key"] for m in extra}):
+            first = [m for m in extra if m["key"] == k][0]
+            log("SPEC-DEVIATION (outside the listed properties, not a violation): %s x%d first=%s"
+                % (k, sum(1 for m in extra if m["key"] == k), json.dumps(first)[:600]))
+        coverage["beyond_property_deviations"] = sorted({m["key"] for m in extra})
         unknown = [m for m in self.mismatches if m.get("key") not in self.open]
         known = [m for m in self.mismatches if m.get("key") in self.open]
         seen = {}
